@@ -47,6 +47,7 @@ type Program struct {
 	Cfg     Config  `json:"cfg"`
 	RPCs    []*RPC  `json:"rpcs"`
 	Faults  []Fault `json:"faults,omitempty"`
+	Canned  *Canned `json:"canned,omitempty"` // C07: reply served by the canned RoundTripper
 }
 
 type Config struct {
